@@ -55,6 +55,12 @@ func runHistories(r *core.Run, thorough bool) {
 						break // the parse doors have their own cases
 					}
 					parent = k
+					if dumpLib(parent) != dumpRef(p.x) {
+						// the parent has no xpub form of its own (an off-curve key: the string carries x and a parity
+						// bit, parsing yields ANOTHER, valid key): this route does not exist for it
+						r.Count("history_parents_without_an_xpub_form", 1)
+						break
+					}
 				} else {
 					parent = toLib(p.x)
 				}
